@@ -442,16 +442,23 @@ class MRunner(Runner):
         # ### END DEBUG
 
         proc_list = []
-        for _ in range(self.num_process):
-            next_job = self.get_next_job(None)
-            if next_job is None:
-                break  # do not start more processes than tasks
-            job_q.put(next_job)
-            process = self.Child(
-                target=self.execute_task_subprocess,
-                args=(job_q, result_q, self.reporter.__class__))
-            process.start()
-            proc_list.append(process)
+        try:
+            for _ in range(self.num_process):
+                next_job = self.get_next_job(None)
+                if next_job is None:
+                    break  # do not start more processes than tasks
+                job_q.put(next_job)
+                process = self.Child(
+                    target=self.execute_task_subprocess,
+                    args=(job_q, result_q, self.reporter.__class__))
+                process.start()
+                proc_list.append(process)
+        except (SystemExit, KeyboardInterrupt, Exception):
+            # do not leave already started processes waiting for a job
+            if self.Child == Process:
+                for proc in proc_list:
+                    proc.terminate()
+            raise
         return proc_list
 
     def _process_result(self, node, task, result):
